@@ -2,14 +2,19 @@ package sx
 
 import (
 	"math"
+	"os"
+	"os/exec"
+	"strconv"
+	"strings"
 
 	"golang.org/x/tools/go/ssa"
 )
 
-// Intrinsics needed by the rsync harnesses (C19/C20): math.Sqrt on concrete
-// floats (OptimalBlockSizeForBaseLength); the pure-Go fallback works on the
-// IEEE bit pattern, which the engine's concrete-only floats do not model.
+// Intrinsics needed by the rsync harnesses (C19/C20).
 func init() {
+	// math.Sqrt on concrete floats (OptimalBlockSizeForBaseLength); the pure-Go
+	// fallback works on the IEEE bit pattern, which the engine's concrete-only
+	// floats do not model.
 	sqrt := func(ex *Exec, fr *frame, fn *ssa.Function, a []value) value {
 		x, ok := a[0].(float64)
 		if !ok {
@@ -19,4 +24,43 @@ func init() {
 	}
 	intrinsics["math.Sqrt"] = sqrt
 	intrinsics["math.sqrt"] = sqrt
+
+	// verifPreferSolver(name): harness-side request for a solver back end
+	// (stop-gap until props tiers have a "solver" key).  z3's incremental
+	// mode answers "unknown" on the feasibility of "twice-rolled weak hash
+	// equals a block's weak hash although the bytes differ" (unsat; nested
+	// mod-2^16 sums); cvc5 decides every such query in well under a second.
+	// An explicit VERIF_SOLVER wins; a missing binary leaves the default.
+	intrinsics["github.com/mutagen-io/mutagen/pkg/synchronization/rsync.verifPreferSolver"] =
+		func(ex *Exec, fr *frame, fn *ssa.Function, a []value) value {
+			if os.Getenv("VERIF_SOLVER") != "" || ex.path == nil || ex.path.concrete {
+				return nil
+			}
+			name := ex.mustConcreteStr(a[0], "verifPreferSolver name")
+			want := SolverCommand(name, solverTimeoutMs(ex.solver.Cmd))
+			if ex.solver.Cmd[0] == want[0] {
+				return nil
+			}
+			if _, err := exec.LookPath(want[0]); err != nil {
+				return nil
+			}
+			ex.solver.Cmd = want
+			ex.solver.restart()
+			return nil
+		}
+}
+
+// solverTimeoutMs recovers the per-query timeout from a solver argv built by
+// SolverCommand.
+func solverTimeoutMs(argv []string) int {
+	for _, a := range argv {
+		for _, p := range []string{"-t:", "--tlimit-per="} {
+			if strings.HasPrefix(a, p) {
+				if n, err := strconv.Atoi(a[len(p):]); err == nil && n > 0 {
+					return n
+				}
+			}
+		}
+	}
+	return 20000
 }
